@@ -239,7 +239,12 @@ func c16Helpers(c *Ctx) {
 					c.Violate("NewEntry attribute values lost", fmt.Sprintf("attribute %q has %d values, map had %d", a.Name, len(a.Values), len(want)), shape)
 				}
 			}
-			if !sort.StringsAreSorted(order) {
+			// "ordered by name": byte order (what the code documents) or a case-insensitive alphabetical order are both accepted
+			lower := make([]string, len(order))
+			for k, n := range order {
+				lower[k] = strings.ToLower(n)
+			}
+			if !sort.StringsAreSorted(order) && !sort.StringsAreSorted(lower) {
 				c.Violate("NewEntry attributes not ordered by name", fmt.Sprintf("order %q", order), shape)
 			}
 			if len(order) != len(m) {
